@@ -125,6 +125,15 @@ CHECKS = {
             'Reference trusted: vertex enumeration (<= 40 half-spaces, dimension <= 4) + scipy HiGHS; non-convergence and artificial '
             'bounds are inconclusive; tolerance 1e-6 relative.',
             'DESIGN.md section 4 / C04'),
+    'C13': ('property-based testing with reference optima computed under exactly the declared dependence (cutting planes / moment LP / '
+            'per-event LP), NaN-pattern and within-event constancy predicates, exhaustive enumeration of partition pairs, and a '
+            'catalogue of illegal declarations that must raise',
+            'Generated-input search over ro dependency masks, dro event partitions built by random adapt() sequences (with affine masks), '
+            'and pairs of decisions with different partitions combined in one expression; all pairs of partitions of 3 (quick) / 4 '
+            '(thorough) scenarios are enumerated. A rule that uses more or less dependence than declared changes the optimum and is '
+            'reported. Sampling plus small exhaustive enumeration, not proof.',
+            'References as in C02/C04; illegal declarations after a formulation may alternatively reproduce the from-scratch result.',
+            'DESIGN.md section 4 / C13'),
 }
 
 NOT_YET = 'check not built yet in this round (see DESIGN.md section 4 for the planned generator and oracle)'
